@@ -1020,6 +1020,14 @@ fn gen(prop: &str, tier: &str, seed: u64) -> Vec<String> {
     for i in 0..(if thorough { 125 } else { 25 }) {
         v.push(gen_lib_mid(&mut r, k0 + i));
     }
+    // one large incompressible write() into a COMPRESSING builder: an encoder that accepts only part of a buffer
+    // (deflate above ~32 KiB, zstd above ~128 KiB) makes write_all re-offer the tail; counts and content must not
+    // depend on that
+    for (i, (writer, codec, n)) in [("eb", "deflate", 200000usize), ("eb", "zstd", 300000), ("eb", "xz", 150001), ("awf", "deflate", 131073),
+                                    ("seb", "zstd", 300000), ("sae", "deflate", 200000), ("swf", "zstd", 262145), ("eb", "deflate", 70001)].into_iter().enumerate() {
+        let (cipher, mode) = [("none", "ctr"), ("aes", "ctr"), ("camellia", "cbc"), ("none", "ctr")][i % 4];
+        v.push(format!("rt\t{}\t{}\tdef\t{}\t{}\tpbkdf2\t1\t{}\t{}\t0\t{}\t{}", writer, codec, cipher, mode, n, r.below(1 << 32), n, 65536));
+    }
     // one write() above 1 MiB and above 4 MiB through the streaming writers with store + CTR (a cap on what a
     // writer below the cipher accepts per call shows only above the cap)
     for (i, n) in [(0usize, (1usize << 20) + 1), (1, (4 << 20) + 1), (2, (1 << 20) + 4097), (3, (2 << 20) + 1)] {
